@@ -350,6 +350,13 @@ Qed.
 Theorem expected_ret_values h f : expected_ret H h f = 1%Z \/ expected_ret H h f = (-1)%Z.
 Proof. unfold expected_ret, flag_of. destruct (_ && _); auto. Qed.
 
+Theorem expected_ret_char h f :
+  (expected_ret H h f = 1%Z <->
+   (forall i c, nth_error (h_chunks h) i = Some c -> chunk_good H h f (i =? 0)%nat c = true) /\
+   (uflag h = true \/ data_good H h f = true)) /\
+  (expected_ret H h f = 1%Z \/ expected_ret H h f = (-1)%Z).
+Proof. split; [apply expected_ret_iff|apply expected_ret_values]. Qed.
+
 (** * Any sequence of calls *)
 Lemma run_op_spec h f o fl st :
   scan_wf h f ->
